@@ -191,8 +191,18 @@ class Context:
         if not vrs:
             return
         t = bv.bitblast_table(vrs)
-        self.vars.update(t)
         bits = bv.bit_table(t, t)
+        # the bits that refine different identifiers must be distinct,
+        # also across separate declarations (for example a Boolean
+        # `x_0` and the bit `x_0` of an integer `x`)
+        if self.vars:
+            old_bits = bv.bit_table(self.vars, self.vars)
+            common = set(bits).intersection(old_bits)
+            if common:
+                raise ValueError(
+                    'declaring these identifiers would reuse '
+                    f'the names of existing bits: {common}')
+        self.vars.update(t)
         for bit in bits:
             self.bdd.add_var(bit)
 
